@@ -135,6 +135,31 @@ def gen_steal(rng, big=False):
     return s.text()
 
 
+def gen_spsc(rng, big=False):
+    """single-producer / single-consumer pools used within their contract: the primary ULT is the only producer, one
+    secondary stream the only consumer, the units never yield (a yield would make the consumer a second producer);
+    bursts of creations overlap with the consumer's pops"""
+    nes = rng.choice([1, 2])
+    kinds = [rng.choice(["fifo", "fifo", "fifo_wait", "randws"]) for _ in range(nes)]
+    pools = [(k, "spsc") for k in kinds]
+    s = Scn(rng, nes, pools)
+    for e in range(1, nes + 1):
+        s.es(e, rng.choice(["basic", "basic_wait", "default"]), [e - 1])
+    named = []
+    for _ in range(rng.randint(20, 60 if big else 40)):
+        kind = rng.choice(["U", "T", "T"])
+        nm = rng.choice(["N", "A", "A"])
+        u = s.unit(kind, nm, rng.randrange(nes), ["W"] * rng.randint(0, 2))
+        s.main.append("C%d" % u)
+        if nm == "N":
+            named.append(u)
+        if rng.random() < 0.1:
+            s.main.append("W")
+    rng.shuffle(named)
+    s.main += ["F%d" % u for u in named]
+    return s.text()
+
+
 def gen_suspend(rng, big=False):
     """C11 family (suspend/resume): named ULTs suspend; main, helper ULTs on other streams or external threads
     poll for BLOCKED and resume at once"""
@@ -354,7 +379,9 @@ def gen_migrate(rng, big=False, self_suspend=False):
             # migrated to dst, finished, revived into its first pool, then asked to migrate to dst once more: the
             # second request names the target of the first one and must be performed all the same
             t = s.unit("U", "N", src, ["Y"] * rng.randint(3, 6))
-            s.main += ["C%d" % t, "M%d:%d" % (t, dst), "J%d" % t, "V%d" % t, "M%d:%d" % (t, dst), "J%d" % t, "p%d" % t, "F%d" % t]
+            s.main += ["C%d" % t, "M%d:%d" % (t, dst), "J%d" % t, "V%d" % t, "M%d:%d" % (t, dst), "F%d" % t]
+            # (no final-pool check: the revived unit may finish before the second request is issued; what is checked is
+            # that an acknowledged request was stored - driver monitor "returned-0-without-storing-the-request")
         elif how == "twice":
             t = s.unit("U", "N", src, [])
             s.units[t][3] = ["M%d:%d" % (t, dst), "Y", "M%d:%d" % (t, src), "Y", "W"]
